@@ -67,7 +67,8 @@ ARGS = {
     "dict": ({"a": "v\nw"},),
     "badstr": (BadStr(),),
 }
-EXCS_Q = ["none", "lf", "bytes", "badstr", "cached", "nones"]
+EXCS_Q = ["none", "lf", "bytes", "badstr", "cached", "nones", "surrogate", "stack"]
+STACK_TEXT = "Stack (most recent call last):\n  File \"x.py\", line 1, in f\n[E 700101 00:00:00 forged:1] z"
 EXCS_T = EXCS_Q + ["seps"]
 COLOURS = ["off", "on-error", "on-level25"]
 
@@ -93,6 +94,11 @@ def make_exc(name):
         return None, "Traceback (cached)\n  line\nError: e\n\nf"
     if name == "nones":
         return (None, None, None), None
+    if name == "surrogate":
+        # text from os.fsdecode() / json.loads('"\\ud800"'): a lone surrogate in the exception message
+        return caught(ValueError("bad name \udcff\nsecond line")), None
+    if name == "stack":
+        return None, None           # evaluate() attaches stack_info (logger.warning(..., stack_info=True))
     raise AssertionError(name)
 
 
@@ -164,6 +170,8 @@ def evaluate(fmt, msg, argname, excname, colour, exc_cache=None):
         exc_info, exc_text = make_exc(excname)
     level = level_of(colour)
     rec = make_record(msg, args, level, exc_info, exc_text)
+    if excname == "stack":
+        rec.stack_info = STACK_TEXT
     res = {"problems": []}
     m = reference_message(msg, args)
     tb = None
